@@ -1,7 +1,7 @@
 """C01 - authorization verdict is exact; a witness cannot truncate or skip the lock."""
 from __future__ import annotations
 import copy
-from .. import env, hyp, optable as O, refasm as R, render, builders, refvm
+from .. import env, hyp, optable as O, refasm as R, render, builders, refvm, monitors
 from ..util import headroom
 from hypothesis import strategies as st
 
@@ -350,6 +350,9 @@ def _static_nt(progs):
 
 
 def _one(ctx, scripts, cache_vals, lim, sentinel, case, nt):
+    if not monitors.within_budget(scripts, cache_vals, lim):
+        ctx.count('skipped:work-explodes (step budget)')
+        return
     fails, info = evaluate(scripts, cache_vals, lim, sentinel)
     ctx.case((scripts, cache_vals, lim), nt)
     ctx.count('model:%s' % info.get('model'))
@@ -479,7 +482,8 @@ def task_optimised(ctx):
             scripts = [R.encode(render.lower(p)) for p in progs]
         except R.NotEncodable:
             return
-        cases.append({'scripts': scripts, 'cache': cache_vals, 'limits': list(lim)})
+        if monitors.within_budget(scripts, cache_vals, lim):
+            cases.append({'scripts': scripts, 'cache': cache_vals, 'limits': list(lim)})
     hyp.drive(structured_case(), collect, ctx.n(400, 20000), ctx.seed + 11)
     outs = builders.builder_outputs(b'c01', '00', 3)
     sf = {'sigfield1': b'abc' + b'c01', 'sigfield3': b'xyz', 'timestamp': 15}
